@@ -458,7 +458,7 @@ CORE_CFGS = {
     "life": (["A", "B"], {"VP_HOOKS": "A:esx,B:x", "VP_CAP": "2"}),
     "ctx": (["A", "B"], {"VP_HOOKS": "A:x,B:e", "VP_CAP": "2"}),
     "ctxp": (["A", "B"], {"VP_HOOKS": "A:x,B:e", "VP_CAP": "2", "VP_CTXPERSIST": "1"}),
-    "perm": (["A", "B"], {"VP_HOOKS": "A:s,B:sx", "VP_FLAGS": "A:RP,B:CUS", "VP_CAP": "2"}),
+    "perm": (["A", "B"], {"VP_HOOKS": "A:s,B:sx", "VP_FLAGS": "A:RP/-,B:CUS", "VP_CAP": "2"}),
     "ps2q": (["A", "B"], {"VP_CAP": "2", "VP_CTXPERSIST": "1", "VP_SETUP": "loop2", "VP_MAXPAY": "2"}),
     "ps2": (["A", "B"], {"VP_CAP": "2", "VP_CTXPERSIST": "1", "VP_SETUP": "loop2", "VP_MAXPAY": "2"}),
     "pub2": (["A", "B"], {"VP_CAP": "2", "VP_CTXPERSIST": "1", "VP_SETUP": "loop2"}),
@@ -466,6 +466,7 @@ CORE_CFGS = {
     "sysmq": (["A", "B"], {"VP_CAP": "2", "VP_CTXPERSIST": "1", "VP_SETUP": "loop2"}),
     "sysm": (["A", "B"], {"VP_CAP": "2", "VP_CTXPERSIST": "1", "VP_SETUP": "loop2"}),
     "sysc": (["A", "B"], {"VP_CAP": "3", "VP_CTXPERSIST": "1"}),
+    "bc2": (["A", "B"], {"VP_CAP": "2", "VP_CTXPERSIST": "1", "VP_SETUP": "loop2", "VP_MAXPAY": "3"}),
     "batch": (["A", "B"], {"VP_CAP": "3", "VP_CTXPERSIST": "1", "VP_SETUP": "loop2", "VP_MAXPAY": "2"}),
     "stash": (["A", "B"], {"VP_CAP": "2", "VP_CTXPERSIST": "1", "VP_SETUP": "loop2", "VP_MAXPAY": "2"}),
     "become": (["A", "B"], {"VP_CAP": "2", "VP_CTXPERSIST": "1", "VP_SETUP": "loop2", "VP_MAXPAY": "1"}),
@@ -498,7 +499,7 @@ def core_check(prop, tier, seed, quick_cfgs, thorough_cfgs, rule, Dq=5, Dt=7, bu
 
 @check("C01")
 def c01(prop, tier, seed):
-    return core_check(prop, tier, seed, ["life"], ["life", "ctx", "perm"],
+    return core_check(prop, tier, seed, ["life", "ps2q"], ["life", "ps2q", "ctx", "perm", "pub2"],
                       "Compared after every step: module states, registered count, running_modules, callback kind/module/order, return codes.")
 
 
@@ -516,13 +517,13 @@ def c15(prop, tier, seed):
 
 @check("C02")
 def c02(prop, tier, seed):
-    return core_check(prop, tier, seed, ["ps2q", "pub2"], ["ps2q", "pub2", "ps3", "ps2"],
+    return core_check(prop, tier, seed, ["ps2q", "pub2", "bc2"], ["ps2q", "pub2", "bc2", "ps3", "ps2", "batch"],
                       "Compared: mailbox lengths, events handed to handlers (payload, sender, topic, system flag), payload release by the library.")
 
 
 @check("C08")
 def c08(prop, tier, seed):
-    return core_check(prop, tier, seed, ["ps2q"], ["ps2q", "ps2", "ps3"],
+    return core_check(prop, tier, seed, ["ps2q", "batch", "bc2"], ["ps2q", "batch", "bc2", "ps2", "ps3"],
                       "Focus: two payloads in flight to one recipient, poison pill ordering, pause/resume, quit + flush.", Dq=6, Dt=8)
 
 
